@@ -30,6 +30,7 @@ from sigma.types import (
     SigmaRegularExpression,
     SigmaRegularExpressionFlag,
     SigmaString,
+    SigmaTimestampPart,
     SigmaType,
     SpecialChars,
 )
@@ -410,14 +411,16 @@ class ConvertTypeTransformation(ValueTransformation):
         self, field: str | None, val: SigmaType
     ) -> (SigmaString | SigmaNumber | SigmaExpansion) | None:
         if self.target_type == "str":
-            # Only convert SigmaNumber to SigmaString
-            if isinstance(val, SigmaNumber):
+            # Only convert SigmaNumber to SigmaString (a part of a timestamp is not a plain number)
+            if isinstance(val, SigmaNumber) and not isinstance(val, SigmaTimestampPart):
                 return SigmaString(str(val))
 
             if isinstance(val, SigmaExpansion):
                 for i, entry in enumerate(val.values):
                     # Only convert SigmaNumber entries to SigmaString
-                    if isinstance(entry, SigmaNumber):
+                    if isinstance(entry, SigmaNumber) and not isinstance(
+                        entry, SigmaTimestampPart
+                    ):
                         val.values[i] = SigmaString(str(entry))
 
                 return val
